@@ -142,6 +142,8 @@ pub assume_specification<T, F: FnOnce() -> T> [Option::<T>::get_or_insert_with] 
 ;
 
 // ---- the real items ----
+// futures' default `ArcWake::wake` is `wake_by_ref`; an override would be a second wake path no contract reads
+//@@ closed-impl src/fair_queue.rs :: impl<S, K> ArcWake for StreamWaker<S, K> where S: Send, K: Clone + Send + Sync, :: wake_by_ref
 //@ item src/fair_queue.rs :: struct QueueInner
 //@ end
 //@ item src/fair_queue.rs :: struct FairQueue
